@@ -19,6 +19,8 @@ CLAIM = (
     "are not dropped (ERR1-3 over infer_for_schema)."
     " SKIPS: the verification / resolution loops in scope have no more `continue`, `break` or in-loop `return` statements than the reference "
     "read on the unchanged tree (baselines/skips.json): a new skip means elements that were examined are no longer examined."
+    " TRUTHY: in the modules in scope no Optional[int|str|float|bytes] is tested by truthiness (a bound of 0 or an empty pattern is a "
+    "constraint, not the absence of one); zero instances on the unchanged tree, kept alive by a positive control."
 )
 NOTE = (
     "Oracle: integer arithmetic on lengths (trusted, 12 rows). Not decided: that every accepted invariant form is recognised, and the "
@@ -65,6 +67,13 @@ def run(ctx) -> None:
         if _m.name.startswith("aas_core_codegen.infer_for_schema"):
             for _f in _m.functions.values():
                 _skips.check_skips(ctx, _f, "SKIPS", _base)
+    ctx.rule("TRUTHY", "no Optional int/str/float/bytes is tested by truthiness (0 and the empty string are values, not absence)", floor=1)
+    from ..rules import truthy as _truthy
+    _truthy.positive_control(ctx, "TRUTHY")
+    for _m in ctx.p.modules.values():
+        if _m.name.startswith("aas_core_codegen.infer_for_schema"):
+            for _f in _m.functions.values():
+                _truthy.check_truthy(ctx, _f, "TRUTHY")
 
 
 def _check_bounds(ctx) -> None:
